@@ -11,7 +11,11 @@ Transformations (each applied to every module of the package at once):
   docstring   a docstring is added to every function that has none
   reorder     module-level function definitions that are adjacent are swapped pairwise (definitions are
               order-independent at module level unless decorated or referenced by a decorator/default)
-  all         all of the above composed
+  elsify      the statements after an `if` whose body ends in return / raise / continue / break move into an else arm
+  flatten     the inverse: `if c: ..return else: rest` becomes `if c: ..return` followed by rest
+  tempret     `return <call or arithmetic>` becomes `_rv = ...; return _rv`
+  methods     pairwise swap of adjacent undecorated, non-dunder methods of every class
+  all         rename, negif, passes, docstring, reorder, methods, shift composed
 
 Not a registered check.  Usage: /venv/bin/python selftest/respell.py [transform ...] [--props C01,C02]"""
 from __future__ import annotations
@@ -199,12 +203,115 @@ def t_reorder(src, path):
     return ast.unparse(tree) + "\n"
 
 
+def _terminates(body) -> bool:
+    return bool(body) and isinstance(body[-1], (ast.Return, ast.Raise, ast.Continue, ast.Break))
+
+
+class _Elsify(ast.NodeTransformer):
+    """`if c: ...return` followed by more statements  ->  the rest moves into an else arm"""
+    def _blocks(self, node):
+        self.generic_visit(node)
+        for fld in ("body", "orelse", "finalbody"):
+            body = getattr(node, fld, None)
+            if isinstance(body, list) and body and isinstance(body[0], ast.stmt):
+                for i, s_ in enumerate(body[:-1]):
+                    if isinstance(s_, ast.If) and not s_.orelse and _terminates(s_.body):
+                        s_.orelse = body[i + 1:]
+                        setattr(node, fld, body[:i + 1])
+                        break
+        return node
+    visit_FunctionDef = _blocks
+    visit_For = _blocks
+    visit_While = _blocks
+    visit_If = _blocks
+    visit_With = _blocks
+    visit_Try = _blocks
+
+
+def t_elsify(src, path):
+    return ast.unparse(ast.fix_missing_locations(_Elsify().visit(ast.parse(src)))) + "\n"
+
+
+class _Flatten(ast.NodeTransformer):
+    """`if c: ...return  else: rest`  ->  `if c: ...return` ; rest   (inverse of elsify)"""
+    def _blocks(self, node):
+        self.generic_visit(node)
+        for fld in ("body", "orelse", "finalbody"):
+            body = getattr(node, fld, None)
+            if isinstance(body, list) and body and isinstance(body[-1], ast.If):
+                last = body[-1]
+                if last.orelse and _terminates(last.body) and not (len(last.orelse) == 1 and isinstance(last.orelse[0], ast.If)):
+                    rest = last.orelse
+                    last.orelse = []
+                    setattr(node, fld, body + rest)
+        return node
+    visit_FunctionDef = _blocks
+    visit_For = _blocks
+    visit_While = _blocks
+    visit_If = _blocks
+    visit_With = _blocks
+
+
+def t_flatten(src, path):
+    return ast.unparse(ast.fix_missing_locations(_Flatten().visit(ast.parse(src)))) + "\n"
+
+
+class _TempRet(ast.NodeTransformer):
+    """`return f(x)`  ->  `_rv = f(x); return _rv`"""
+    def _blocks(self, node):
+        self.generic_visit(node)
+        for fld in ("body", "orelse", "finalbody"):
+            body = getattr(node, fld, None)
+            if isinstance(body, list) and body and isinstance(body[0], ast.stmt):
+                out = []
+                for s_ in body:
+                    if isinstance(s_, ast.Return) and isinstance(s_.value, (ast.Call, ast.BinOp)):
+                        out.append(ast.Assign(targets=[ast.Name(id="_rv", ctx=ast.Store())], value=s_.value, lineno=s_.lineno))
+                        out.append(ast.Return(value=ast.Name(id="_rv", ctx=ast.Load())))
+                    else:
+                        out.append(s_)
+                setattr(node, fld, out)
+        return node
+    visit_FunctionDef = _blocks
+    visit_For = _blocks
+    visit_While = _blocks
+    visit_If = _blocks
+    visit_With = _blocks
+    visit_Try = _blocks
+
+    def visit_Lambda(self, node):
+        return node
+
+
+def t_tempret(src, path):
+    return ast.unparse(ast.fix_missing_locations(_TempRet().visit(ast.parse(src)))) + "\n"
+
+
+def t_methods(src, path):
+    """pairwise swap of adjacent undecorated methods of a class (definition order inside a class body is irrelevant)"""
+    tree = ast.parse(src)
+    for c in ast.walk(tree):
+        if isinstance(c, ast.ClassDef):
+            body = list(c.body)
+            i = 0
+            while i + 1 < len(body):
+                a, b = body[i], body[i + 1]
+                if isinstance(a, ast.FunctionDef) and isinstance(b, ast.FunctionDef) and not a.decorator_list and not b.decorator_list and a.name != b.name \
+                        and not a.name.startswith("__") and not b.name.startswith("__"):
+                    body[i], body[i + 1] = b, a
+                    i += 2
+                else:
+                    i += 1
+            c.body = body
+    return ast.unparse(tree) + "\n"
+
+
 TRANSFORMS = dict(roundtrip=t_roundtrip, shift=t_shift, rename=t_rename, negif=t_negif, passes=t_passes,
-                  docstring=t_docstring, reorder=t_reorder)
+                  docstring=t_docstring, reorder=t_reorder, elsify=t_elsify, flatten=t_flatten, tempret=t_tempret, methods=t_methods)
 
 
 def t_all(src, path):
-    for k in ("rename", "negif", "passes", "docstring", "reorder", "shift"):
+    for k in ("rename", "negif", "passes", "docstring", "reorder", "methods", "shift"):
         src = TRANSFORMS[k](src, path)
     return src
 
@@ -215,8 +322,8 @@ TRANSFORMS["all"] = t_all
 def _one(args):
     tname, prop, root = args
     rc, out = harness.run_check(prop, root)
-    lines = [l for l in out.splitlines() if l.startswith(("VIOLATION", "ANALYSIS-ERROR", "  ")) or "rule=" in l]
-    return tname, prop, rc, "\n".join(lines[:12])
+    lines = [l for l in out.splitlines() if l.startswith(("ANALYSIS-ERROR", "  xitorch/", "  (also)"))]
+    return tname, prop, rc, "\n".join(lines[:8])
 
 
 def main(argv):
